@@ -1,6 +1,7 @@
 //! vh — conformance harness: replays TLC-generated behaviours into the real varlink code and
 //! records traces of the real code for validation against the TLA+ specifications.
 mod cli;
+mod addr;
 mod cert;
 mod client;
 mod conn;
@@ -32,6 +33,11 @@ fn main() {
         "poolobs" => poolobs::run(rest),
         "client" => client::run(rest),
         "cli" => cli::run(rest),
+        "addr" => addr::run_addr(rest),
+        "actprobe" => addr::run_actprobe(rest),
+        "actserve" => addr::run_actserve(rest),
+        "stdioserve" => addr::run_stdioserve(rest),
+        "transport" => addr::run_transport(rest),
         "cert" => cert::run(rest),
         "certtrace" => cert::run_trace(rest),
         "wire" => wire::run(rest),
